@@ -186,8 +186,20 @@ func checkC06(p *Prog, r *Report) {
 		})
 		for _, b := range fn.Blocks {
 			for _, ins := range b.Instrs {
-				if mu, ok := ins.(*ssa.MapUpdate); ok && strings.HasSuffix(Path(mu.Map), "."+FN("Feature.operations")) {
+				mu, ok := ins.(*ssa.MapUpdate)
+				if !ok {
+					continue
+				}
+				if strings.HasSuffix(Path(mu.Map), "."+FN("Feature.operations")) {
 					upd = mu
+				}
+				// ... or a map built locally that is then stored into the operations field (built first, published under the lock)
+				if mk, isMk := mu.Map.(*ssa.MakeMap); isMk && mk.Referrers() != nil {
+					for _, ref := range *mk.Referrers() {
+						if st, isSt := ref.(*ssa.Store); isSt && st.Val == ssa.Value(mk) && strings.HasSuffix(Path(st.Addr), "."+FN("Feature.operations")) {
+							upd = mu
+						}
+					}
 				}
 			}
 		}
